@@ -18,6 +18,7 @@ package main
 
 import (
 	"fmt"
+	"go/ast"
 	"go/token"
 	"go/types"
 	"strings"
@@ -86,6 +87,16 @@ func checkC09(w *World, r *Report) {
 	n := checkStringUnits(w, r, "R09.4", true)
 	r.Counts["string-iteration sites in the for renderer"] = n
 	checkSetNode(w, r)
+	// R09.6: the truthiness routines
+	nz := checkZeroTests(w, r, "R09.6", func(f *types.Func) bool { return strings.EqualFold(f.Name(), "tobool") }, "treated as truthy although the property lists 0 as falsy")
+	r.Counts["zero tests in truthiness routines"] = nz
+	nTruth := 0
+	for f := range w.decls {
+		if strings.EqualFold(f.Name(), "tobool") {
+			nTruth++
+		}
+	}
+	r.floor("truthiness routines (toBool)", nTruth, 1)
 }
 
 func checkIfNode(w *World, r *Report) {
@@ -497,3 +508,66 @@ func checkSetNode(w *World, r *Report) {
 }
 
 var _ = fmt.Sprintf
+
+// checkZeroTests (R09.6 / R19.3): inside a type-switch clause that lists several types the bound
+// variable has interface type, so `v == 0` / `v != 0` compares the dynamic TYPE too: only a zero
+// of the constant's default type (int) is recognised, int64(0), uint8(0), 0.0 … are not.  In a
+// truthiness or emptiness routine that makes those zeros truthy / non-empty.
+func checkZeroTests(w *World, r *Report, rule string, inScope func(fn *types.Func) bool, what string) int {
+	n := 0
+	for _, fd := range w.sortedDecls() {
+		obj := w.Info.Defs[fd.Name].(*types.Func)
+		if !inScope(obj) {
+			continue
+		}
+		fname := w.declName(fd)
+		ast.Inspect(fd.Body, func(nd ast.Node) bool {
+			cc, ok := nd.(*ast.CaseClause)
+			if !ok {
+				return true
+			}
+			ts, ok := w.parents[w.parents[cc]].(*ast.TypeSwitchStmt)
+			if !ok {
+				return true
+			}
+			_ = ts
+			// numeric type lists
+			numeric := 0
+			for _, e := range cc.List {
+				if t := w.Info.TypeOf(e); t != nil {
+					if b, ok := t.Underlying().(*types.Basic); ok && b.Info()&types.IsNumeric != 0 {
+						numeric++
+					}
+				}
+			}
+			if numeric == 0 {
+				return true
+			}
+			for _, st := range cc.Body {
+				ast.Inspect(st, func(m ast.Node) bool {
+					be, ok := m.(*ast.BinaryExpr)
+					if !ok || (be.Op != token.EQL && be.Op != token.NEQ) {
+						return true
+					}
+					for _, pr := range [][2]ast.Expr{{be.X, be.Y}, {be.Y, be.X}} {
+						tx := w.Info.TypeOf(pr[0])
+						tv := w.Info.Types[pr[1]]
+						if tx == nil || tv.Value == nil {
+							continue
+						}
+						n++
+						construct := fmt.Sprintf("zero test `%s` under case of %d numeric type(s)", types.ExprString(be), numeric)
+						if _, isI := tx.Underlying().(*types.Interface); isI {
+							r.bad(rule, fname, construct, w.pos(be), "the variable has interface type in a multi-type case clause, so the comparison also compares the dynamic type with the constant's default type: a zero of any other numeric type (int64(0), uint8(0), 0.0) is "+what)
+						} else {
+							r.ok(rule, fname, construct, w.pos(be), "compared at its concrete type", true)
+						}
+					}
+					return true
+				})
+			}
+			return true
+		})
+	}
+	return n
+}
